@@ -24,9 +24,8 @@ use tokio::sync::Mutex;
 
 pub fn run() -> Result<(), Box<dyn std::error::Error>> {
     std::panic::set_hook(Box::new(|_| {}));
-    let handle = std::thread::Builder::new()
-        .stack_size(64 << 20)
-        .spawn(|| {
+    let handle =
+        std::thread::Builder::new().stack_size(64 << 20).spawn(|| {
             let rt = tokio::runtime::Builder::new_current_thread()
                 .enable_all()
                 .build()
@@ -105,11 +104,15 @@ async fn dedup(req: &Value) -> Value {
     let (tx_out, mut rx_out) =
         tokio::sync::mpsc::channel::<TimedMessage>(cap.unwrap_or(n + 1));
     let task = tokio::spawn(crate::dedup::deduplicate_messages(rx, tx_out, w));
-    let burst = req["burst"].as_u64().map(|b| (b as usize).max(1)).unwrap_or(1);
+    let burst = req["burst"]
+        .as_u64()
+        .map(|b| (b as usize).max(1))
+        .unwrap_or(1);
     let mut per_arrival: Vec<Value> = Vec::with_capacity(n);
     let mut crashed = false;
     for (k, a) in arrivals.iter().enumerate() {
-        let frame = hex::decode(a["frame"].as_str().unwrap_or("")).unwrap_or_default();
+        let frame =
+            hex::decode(a["frame"].as_str().unwrap_or("")).unwrap_or_default();
         let ts = a["ts"].as_f64().unwrap_or(0.0);
         let id = a["id"].as_u64().unwrap_or(k as u64);
         let msg = TimedMessage {
@@ -158,7 +161,10 @@ async fn dedup(req: &Value) -> Value {
                 empty_drains = 0;
             }
             // default capacity: the channel is never full, one round is complete
-            if (cap.is_none() && burst == 1) || empty_drains >= 2 || task.is_finished() {
+            if (cap.is_none() && burst == 1)
+                || empty_drains >= 2
+                || task.is_finished()
+            {
                 break;
             }
         }
@@ -195,7 +201,8 @@ fn record_json(rec: &TimedMessage) -> Value {
 
 /// {"cmd":"filters","frame":hex,"toml":"df_filter = [..]\naircraft_filter = [..]"}
 fn filters(req: &Value) -> Value {
-    let frame = hex::decode(req["frame"].as_str().unwrap_or("")).unwrap_or_default();
+    let frame =
+        hex::decode(req["frame"].as_str().unwrap_or("")).unwrap_or_default();
     let toml_text = req["toml"].as_str().unwrap_or("");
     let filter: Filters = match toml::from_str(toml_text) {
         Ok(f) => f,
@@ -250,17 +257,20 @@ fn new_app(n_items: usize, width: u16) -> Jet1090 {
 /// record's JSON and what the /all endpoint serves.
 async fn snapshot_cmd(req: &Value) -> Value {
     let app = Mutex::new(new_app(0, 0));
-    let aircraftdb: BTreeMap<String, crate::aircraftdb::Aircraft> = BTreeMap::new();
+    let aircraftdb: BTreeMap<String, crate::aircraftdb::Aircraft> =
+        BTreeMap::new();
     let mut aircraft: BTreeMap<ICAO, AircraftState> = BTreeMap::new();
-    let reference0: Option<Position> = req["reference"].as_array().map(|a| Position {
-        latitude: a[0].as_f64().unwrap_or(0.),
-        longitude: a[1].as_f64().unwrap_or(0.),
-    });
+    let reference0: Option<Position> =
+        req["reference"].as_array().map(|a| Position {
+            latitude: a[0].as_f64().unwrap_or(0.),
+            longitude: a[1].as_f64().unwrap_or(0.),
+        });
     let update_reference: rs1090::decode::cpr::UpdateIf = None;
     let records = req["records"].as_array().cloned().unwrap_or_default();
     let mut steps = Vec::new();
     for r in records.iter() {
-        let frame = hex::decode(r["frame"].as_str().unwrap_or("")).unwrap_or_default();
+        let frame =
+            hex::decode(r["frame"].as_str().unwrap_or("")).unwrap_or_default();
         let ts = r["ts"].as_f64().unwrap_or(0.0);
         let serial = r["serial"].as_u64().unwrap_or(1);
         let mut msg = TimedMessage {
@@ -324,7 +334,9 @@ async fn snapshot_cmd(req: &Value) -> Value {
             let keys: Vec<String> = app.state_vectors.keys().cloned().collect();
             json!({"keys": keys, "all": serde_json::to_value(&v).unwrap_or(Value::Null)})
         };
-        steps.push(json!({"decoded": msg.message.is_some(), "json": js, "table": all}));
+        steps.push(
+            json!({"decoded": msg.message.is_some(), "json": js, "table": all}),
+        );
     }
     json!({"cmd": "snapshot", "steps": steps})
 }
@@ -354,16 +366,19 @@ async fn reply_body(reply: warp::reply::Json) -> Value {
 /// query) on the application state and returns their JSON bodies.
 async fn web_cmd(req: &Value) -> Value {
     let app = std::sync::Arc::new(Mutex::new(new_app(0, 0)));
-    let aircraftdb: BTreeMap<String, crate::aircraftdb::Aircraft> = BTreeMap::new();
+    let aircraftdb: BTreeMap<String, crate::aircraftdb::Aircraft> =
+        BTreeMap::new();
     let mut aircraft: BTreeMap<ICAO, AircraftState> = BTreeMap::new();
-    let reference0: Option<Position> = req["reference"].as_array().map(|a| Position {
-        latitude: a[0].as_f64().unwrap_or(0.),
-        longitude: a[1].as_f64().unwrap_or(0.),
-    });
-    let filters: Filters = match toml::from_str(req["toml"].as_str().unwrap_or("")) {
-        Ok(f) => f,
-        Err(e) => return json!({"error": format!("toml: {e}")}),
-    };
+    let reference0: Option<Position> =
+        req["reference"].as_array().map(|a| Position {
+            latitude: a[0].as_f64().unwrap_or(0.),
+            longitude: a[1].as_f64().unwrap_or(0.),
+        });
+    let filters: Filters =
+        match toml::from_str(req["toml"].as_str().unwrap_or("")) {
+            Ok(f) => f,
+            Err(e) => return json!({"error": format!("toml: {e}")}),
+        };
     let keep_history = req["history"].as_bool().unwrap_or(true);
     let update_reference: rs1090::decode::cpr::UpdateIf = None;
     let records = req["records"].as_array().cloned().unwrap_or_default();
@@ -374,7 +389,8 @@ async fn web_cmd(req: &Value) -> Value {
     let queries = req["queries"].as_array().cloned().unwrap_or_default();
     let mut steps = Vec::new();
     for (k, r) in records.iter().enumerate() {
-        let frame = hex::decode(r["frame"].as_str().unwrap_or("")).unwrap_or_default();
+        let frame =
+            hex::decode(r["frame"].as_str().unwrap_or("")).unwrap_or_default();
         let ts = r["ts"].as_f64().unwrap_or(0.0);
         let serial = r["serial"].as_u64().unwrap_or(1);
         let mut msg = TimedMessage {
@@ -453,7 +469,9 @@ async fn web_cmd(req: &Value) -> Value {
                 if q["since"].is_number() {
                     qv["since"] = q["since"].clone();
                 }
-                let res = match serde_json::from_value::<crate::web::TrackQuery>(qv) {
+                let res = match serde_json::from_value::<crate::web::TrackQuery>(
+                    qv,
+                ) {
                     Ok(tq) => match crate::web::track(&app, tq).await {
                         Ok(r) => reply_body(r).await,
                     },
@@ -461,7 +479,8 @@ async fn web_cmd(req: &Value) -> Value {
                 };
                 tracks.push(json!({"query": q, "reply": res}));
             }
-            let keys: Vec<String> = app.lock().await.state_vectors.keys().cloned().collect();
+            let keys: Vec<String> =
+                app.lock().await.state_vectors.keys().cloned().collect();
             step["probe"] = json!({"home": home, "all": all, "sensors": sensors,
                                    "tracks": tracks, "keys": keys});
         }
@@ -616,7 +635,8 @@ fn tui(req: &Value) -> Value {
                     continue;
                 }
                 match key_of(name) {
-                    None => outs.push(json!({"error": format!("unknown key {name}")})),
+                    None => outs
+                        .push(json!({"error": format!("unknown key {name}")})),
                     Some(ev) => match tui_press(&fresh, ev) {
                         Ok(st) => outs.push(st),
                         Err(p) => outs.push(json!({"panic": p})),
@@ -668,7 +688,11 @@ struct Tui2Screen {
 }
 
 fn tui2_id(token: &str) -> Option<u64> {
-    if token.len() == 6 && token.chars().all(|c| c.is_ascii_hexdigit() && !c.is_ascii_uppercase()) {
+    if token.len() == 6
+        && token
+            .chars()
+            .all(|c| c.is_ascii_hexdigit() && !c.is_ascii_uppercase())
+    {
         u64::from_str_radix(token, 16).ok()
     } else {
         None
@@ -689,7 +713,13 @@ fn tui2_read_screen(buf: &ratatui::buffer::Buffer) -> Tui2Screen {
         let marked = line.chars().take(4).any(|c| c == '\u{2588}');
         let text: String = line
             .chars()
-            .map(|c| if c == '\u{2588}' || c == '\u{2502}' { ' ' } else { c })
+            .map(|c| {
+                if c == '\u{2588}' || c == '\u{2502}' {
+                    ' '
+                } else {
+                    c
+                }
+            })
             .collect();
         if let Some(id) = text.split_whitespace().next().and_then(tui2_id) {
             if marked {
@@ -703,7 +733,11 @@ fn tui2_read_screen(buf: &ratatui::buffer::Buffer) -> Tui2Screen {
 
 fn tui2_state(app: &Jet1090, screen: &Tui2Screen, na: u64, now0: u64) -> Value {
     let mut st = tui_state(app);
-    st["query"] = json!(app.search_query.chars().map(|c| c.to_string()).collect::<Vec<String>>());
+    st["query"] = json!(app
+        .search_query
+        .chars()
+        .map(|c| c.to_string())
+        .collect::<Vec<String>>());
     st["items"] = json!(app
         .items
         .iter()
@@ -723,8 +757,10 @@ fn tui2_state(app: &Jet1090, screen: &Tui2Screen, na: u64, now0: u64) -> Value {
                 "first": now0.saturating_sub(sv.cur.firstseen),
                 "last": now0.saturating_sub(sv.cur.lastseen),
             })),
-            None => ac.push(json!({"on": false, "cs": "none", "alt": -1, "vr": -100000,
-                                   "count": 0, "first": 0, "last": 0})),
+            None => ac.push(
+                json!({"on": false, "cs": "none", "alt": -1, "vr": -100000,
+                                   "count": 0, "first": 0, "last": 0}),
+            ),
         }
     }
     st["ac"] = Value::Array(ac);
@@ -741,12 +777,16 @@ fn tui2_world() -> Tui2World {
     Tui2World {
         app: Mutex::new(new_app(0, 100)),
         terminal: tui2_terminal(),
-        screen: Tui2Screen { rows: vec![], highlighted: -1 },
+        screen: Tui2Screen {
+            rows: vec![],
+            highlighted: -1,
+        },
     }
 }
 
 fn tui2_terminal() -> ratatui::Terminal<ratatui::backend::TestBackend> {
-    ratatui::Terminal::new(ratatui::backend::TestBackend::new(120, 12)).expect("test terminal")
+    ratatui::Terminal::new(ratatui::backend::TestBackend::new(120, 12))
+        .expect("test terminal")
 }
 
 /// Jet1090 is not Clone: a field-by-field copy, so that several steps can be tried from
@@ -780,7 +820,8 @@ fn tui2_copy(w: &Tui2World) -> Tui2World {
             count: c.count,
             metadata: vec![],
         };
-        state_vectors.insert(k.clone(), snapshot::StateVectors { cur, hist: vec![] });
+        state_vectors
+            .insert(k.clone(), snapshot::StateVectors { cur, hist: vec![] });
     }
     let app = Jet1090 {
         sensors: BTreeMap::new(),
@@ -806,7 +847,10 @@ fn tui2_copy(w: &Tui2World) -> Tui2World {
     Tui2World {
         app: Mutex::new(app),
         terminal: tui2_terminal(),
-        screen: Tui2Screen { rows: w.screen.rows.clone(), highlighted: w.screen.highlighted },
+        screen: Tui2Screen {
+            rows: w.screen.rows.clone(),
+            highlighted: w.screen.highlighted,
+        },
     }
 }
 
@@ -814,7 +858,11 @@ fn tui2_copy(w: &Tui2World) -> Tui2World {
 /// table::build_table through Terminal::draw (as main()'s loop does after update());
 /// {"set":id, ...} / {"remove":id} -> the driver changes state_vectors (what the decoding
 /// task does between two frames).  Err(text) = the code under test panicked.
-fn tui2_step(w: &mut Tui2World, step: &Value, now0: u64) -> Result<Option<bool>, String> {
+fn tui2_step(
+    w: &mut Tui2World,
+    step: &Value,
+    now0: u64,
+) -> Result<Option<bool>, String> {
     if let Some(name) = step["key"].as_str() {
         let ev = key_of(name).ok_or(format!("!unknown key {name}"))?;
         let app = &w.app;
@@ -853,13 +901,24 @@ fn tui2_step(w: &mut Tui2World, step: &Value, now0: u64) -> Result<Option<bool>,
     Err("!unknown step".to_string())
 }
 
-fn tui2_run(w: &mut Tui2World, steps: &[Value], na: u64, now0: u64, record: bool) -> (Vec<Value>, bool) {
+fn tui2_run(
+    w: &mut Tui2World,
+    steps: &[Value],
+    na: u64,
+    now0: u64,
+    record: bool,
+) -> (Vec<Value>, bool) {
     let mut states = Vec::new();
     for step in steps.iter() {
         match tui2_step(w, step, now0) {
             Ok(ok) => {
                 if record {
-                    let mut st = tui2_state(&w.app.try_lock().unwrap(), &w.screen, na, now0);
+                    let mut st = tui2_state(
+                        &w.app.try_lock().unwrap(),
+                        &w.screen,
+                        na,
+                        now0,
+                    );
                     st["ok"] = json!(ok.unwrap_or(true));
                     states.push(st);
                 }
@@ -894,10 +953,17 @@ fn tui2(req: &Value) -> Value {
     if let Some(fan) = fan {
         let mut outs = Vec::new();
         if complete {
-            reply["before"] = tui2_state(&w.app.try_lock().unwrap(), &w.screen, na, now0);
+            reply["before"] =
+                tui2_state(&w.app.try_lock().unwrap(), &w.screen, na, now0);
             for f in fan.iter() {
                 let mut fresh = tui2_copy(&w);
-                let (mut one, _) = tui2_run(&mut fresh, std::slice::from_ref(f), na, now0, true);
+                let (mut one, _) = tui2_run(
+                    &mut fresh,
+                    std::slice::from_ref(f),
+                    na,
+                    now0,
+                    true,
+                );
                 outs.push(one.pop().unwrap_or(json!({"error": "no outcome"})));
             }
         }
@@ -932,7 +998,9 @@ fn source(req: &Value) -> Value {
     let mut res = source_parse(req);
     if let Some(code) = req["airport"].as_str() {
         res["airport"] = match AIRPORTS.iter().find(|a| a.icao == code) {
-            Some(a) => json!({"found": true, "icao": a.icao, "lat": a.lat, "lon": a.lon}),
+            Some(a) => {
+                json!({"found": true, "icao": a.icao, "lat": a.lat, "lon": a.lon})
+            }
             None => json!({"found": false}),
         };
     }
@@ -950,7 +1018,10 @@ fn source_catch<T>(f: impl FnOnce() -> T) -> (std::thread::Result<T>, String) {
     }));
     let r = catch_unwind(AssertUnwindSafe(f));
     std::panic::set_hook(prev);
-    let loc = LOC.lock().map(|mut g| std::mem::take(&mut *g)).unwrap_or_default();
+    let loc = LOC
+        .lock()
+        .map(|mut g| std::mem::take(&mut *g))
+        .unwrap_or_default();
     (r, loc)
 }
 
@@ -968,7 +1039,9 @@ fn source_parse(req: &Value) -> Value {
     };
     let (p, at) = source_catch(|| Position::from_str(&s));
     let position = match p {
-        Ok(Ok(pos)) => json!({"outcome": "ok", "position": [pos.latitude, pos.longitude]}),
+        Ok(Ok(pos)) => {
+            json!({"outcome": "ok", "position": [pos.latitude, pos.longitude]})
+        }
         Ok(Err(e)) => json!({"outcome": "err", "error": e}),
         Err(e) => json!({"outcome": "panic", "panic": panic_text(e), "at": at}),
     };
@@ -985,7 +1058,11 @@ fn source_toml(req: &Value) -> Value {
             v["outcome"] = json!("ok");
             json!({"cmd": "source_toml", "table": v})
         }
-        Ok(Err(e)) => json!({"cmd": "source_toml", "table": {"outcome": "err", "error": e.to_string()}}),
-        Err(e) => json!({"cmd": "source_toml", "table": {"outcome": "panic", "panic": panic_text(e)}}),
+        Ok(Err(e)) => {
+            json!({"cmd": "source_toml", "table": {"outcome": "err", "error": e.to_string()}})
+        }
+        Err(e) => {
+            json!({"cmd": "source_toml", "table": {"outcome": "panic", "panic": panic_text(e)}})
+        }
     }
 }
